@@ -46,6 +46,10 @@ fn main() {
         c12dbg();
         return;
     }
+    if path == "c12dbg5" {
+        c12dbg5();
+        return;
+    }
     if path == "c12dbg4" {
         c12dbg4();
         return;
@@ -364,4 +368,37 @@ fn c12dbg4() {
     show("after undo 2");
     println!("undo {}", mgr.undo_blocking());
     show("after undo 3");
+}
+
+
+fn c12dbg5() {
+    use yrs::types::ToJson;
+    use yrs::undo::Options as UOpts;
+    use yrs::{Array, Doc, Map, MapPrelim, MapRef, Options, Transact};
+    let mut o = Options::with_client_id(yrs::block::ClientID::new(1));
+    o.skip_gc = false;
+    let doc = Doc::with_options(o);
+    let arr = doc.get_or_insert_array("arr");
+    let mut uo = UOpts::<()>::default();
+    uo.capture_timeout_millis = 0;
+    let mut mgr = yrs::undo::UndoManager::with_options(uo);
+    mgr.expand_scope(&doc, &arr);
+    let show = |what: &str| {
+        let txn = doc.transact();
+        let b: Vec<String> = yrs::verif_hooks::store_blocks(txn.store()).iter().map(|b| format!("{}#{}+{}{}", b.client.get(), b.clock, b.len, if b.deleted { "d" } else { "" })).collect();
+        println!("{}: {} blocks {:?}", what, arr.to_json(&txn), b);
+    };
+    let m: MapRef = arr.insert(&mut doc.transact_mut(), 0, MapPrelim::from([("k".to_string(), yrs::Any::from(3.0))]));
+    mgr.reset();
+    show("created");
+    m.insert(&mut doc.transact_mut(), "k", 7.0);
+    mgr.reset();
+    show("overwritten");
+    println!("undo {}", mgr.undo_blocking());
+    show("after undo of the overwrite");
+    arr.remove(&mut doc.transact_mut(), 0);
+    mgr.reset();
+    show("map removed");
+    println!("undo {}", mgr.undo_blocking());
+    show("after undo of the removal");
 }
